@@ -115,6 +115,10 @@ func termFor(key, name string) Term {
 	return t
 }
 
+// nzTerm is the 0/1 nil-ness indicator of a slice object: 0 for a nil slice,
+// 1 for a non-nil one; unconstrained when nothing is known.
+func nzTerm(obj Term) Term { return termFor(fmt.Sprintf("nz:%d", obj), "nz("+tname(obj)+")") }
+
 // --- constraint manipulation ---
 
 func (s *State) addLE(l Lin) { // l <= 0
